@@ -100,12 +100,32 @@ def one_extract(ctx, binf, d, train, sc, idx):
            "table": [], "jobs": [], "content": [], "exc": "",
            "obs": {"rows_ok": True, "table_ok": True, "order_ok": True, "chan_ok": True, "templ_ok": True, "loader_ok": True},
            "detail": {}, "hash": None}
+    src = binf
+    before = None
+    if sc.get("cbin"):
+        # the compressed form of the same recording as input (decompress_to_scratch path): same result required
+        cdir = Path(ctx.scratch) / f"wfcbin_{idx}"
+        shutil.rmtree(cdir, ignore_errors=True)
+        cdir.mkdir(parents=True)
+        for f in (binf, binf.with_suffix(".meta")):
+            shutil.copy(f, cdir / f.name)
+        srx = spikeglx.Reader(cdir / binf.name)
+        srx.compress_file(keep_original=False, chunk_duration=0.1)
+        srx.close()
+        src = (cdir / binf.name).with_suffix(".cbin")
+        before = sorted(p.name for p in cdir.iterdir())
     try:
-        we.extract_wfs_cbin(binf, out, ss, sc_, sp, max_wf=sc["maxwf"], chunksize_samples=sc["chunk"], n_jobs=sc["njobs"],
-                            preprocess_steps=[], seed=sc["seed"])
+        we.extract_wfs_cbin(src, out, ss, sc_, sp, max_wf=sc["maxwf"], chunksize_samples=sc["chunk"], n_jobs=sc["njobs"],
+                            preprocess_steps=[], seed=sc["seed"], scratch_dir=(Path(ctx.scratch) / f"wfscr_{idx}") if sc.get("cbin") == "scratch" else None)
     except Exception as e:  # noqa
         rec["exc"] = f"{type(e).__name__}: {e}"[:150].replace('"', "'")
         return rec
+    if before is not None:
+        after = sorted(p.name for p in src.parent.iterdir())
+        if after != before:
+            rec["source_dir_changed"] = {"before": before, "after": after}
+        shutil.rmtree(src.parent, ignore_errors=True)
+        shutil.rmtree(Path(ctx.scratch) / f"wfscr_{idx}", ignore_errors=True)
     evs = []
     for f in sorted(trdir.glob("*.ndjson")):
         evs += [json.loads(line) for line in f.read_text().splitlines()]
@@ -250,6 +270,10 @@ def scenarios(ctx):
             for chunk, nj in combos:
                 scs.append({"kind": kind, "ns": ns, "rec": ri, "train": ti, "maxwf": maxwf, "chunk": chunk, "njobs": nj,
                             "seed": base + 10 * ri + ti, "nunits": 4 + ti % 3, "nspk": 400, "group": f"r{ri}t{ti}"})
+            if ti == 0:
+                # same recording handed in compressed (with and without a scratch directory): same files required
+                for mode in (["scratch"] if ctx.quick else ["scratch", "inplace"]):
+                    scs.append(dict(scs[-1], chunk=3000, njobs=2, cbin=mode))
     return scs
 
 
@@ -293,6 +317,10 @@ def run(ctx):
             ctx.violation("wfs:Independent", f"saved files differ between (chunk, n_jobs) settings {[(a, b) for a, b, _ in lst]}",
                           {"scenario": [s for s in scs if s["group"] == g]})
     ctx.cov["independence_groups"] = {g: len(v) for g, v in groups.items()}
+    for sc, t in zip(scs, traces):
+        if t.get("source_dir_changed"):
+            ctx.observe(f"extract_wfs_cbin on a .cbin (scratch mode {sc.get('cbin')}) changed the recording's own folder: "
+                        f"{t['source_dir_changed']} (no listed property covers this)")
     for sc, t in list(zip(scs, traces))[:2]:
         ctx.sample({"scenario": sc, "first_spikes": t["train"][:5], "table_rows": len(t["table"]),
                     "jobs": [[j["c"], len(j["rows"]), j["snip_first"], j["snip_len"]] for j in t["jobs"][:5]]})
